@@ -14,7 +14,7 @@ import (
 
 func init() {
 	register(&PropDef{
-		ID: "C07", Level: "exploration", Quick: 6000, Thorough: 800000, QuickCap: 110,
+		ID: "C07", Level: "exploration", Quick: 48000, Thorough: 800000, QuickCap: 110,
 		Rule: "each run = one store, 2-4 client tasks x 1-4 HTTP requests on 1-2 object names: conditional and unconditional uploads (media, multipart, resumable), patches conditioned on metageneration, deletes, compose and copy (same bucket and across buckets) into the contended name (static sources), metadata and media reads; the seeded scheduler interleaves them at every store access (Store seam), every internal step of the per-object lock map and the file store's write steps; 0-1 request contexts are cancelled at a scheduled instant; the history (global event stamps) is checked per object with porcupine against the object model with generations as opaque fresh tokens, plus the single-winner invariant for N writers conditioned on one generation; distinct = trace + response hash; non-trivial = at least one preemption",
 		Real: []string{"gcsemu handlers through the real mux, gcsutil.TransientLockMap, memstore (btree under its mutexes), filestore (content, mtime, sidecar as separate system calls)"},
 		Stub: []string{"HTTP connections (recorder)", "Go channel blocking in the lock map (wait-until)", "wall clock (strictly increasing, so generations are distinct; the stalled clock belongs to C10)"},
